@@ -159,6 +159,10 @@ func (c RawConfiguration) handleCorrectableCall(ctx context.Context, corr *Corre
 			}
 			replies[r.nid] = r.msg
 			if resp, rlevel, quorum = state.data.QuorumFunction(state.data.Message, replies); quorum {
+				if rlevel < clevel {
+					// the call is done, but its level must not go down
+					rlevel = clevel
+				}
 				corr.set(resp, rlevel, nil, true)
 				return
 			}
